@@ -220,3 +220,14 @@ Example ex_sort_individuals :
              (match sort_individuals ex_pedigree with Ok t => Some t | _ => None end)
   = Some ([[103]; [100]; [109]; [107]], [[-1; -1]; [-1; -1]; [0; -1]; [2; 1]], [3; 3; 2; 2; 1; 1; 0; 0]).
 Proof. vm_compute. reflexivity. Qed.
+
+(* repair_pipeline: [ex_tables] (shuffled rows, duplicate site position, a child mutation listed
+   before its parent but with a strictly older parent time) meets every hypothesis, and the
+   pipeline runs to the end *)
+From TskVerif Require Import C07.RepairProofs.
+Example ex_repair_pipeline :
+  match repair Qmerge ex_tables with
+  | Ok t => Some (map s_pos (t_sites t), map m_site (t_muts t), map m_node (t_muts t), map m_parent (t_muts t))
+  | _ => None end
+  = Some ([2; 4], [0; 1; 1; 1], [1; 2; 0; 0], [-1; -1; 1; 2]).
+Proof. vm_compute. reflexivity. Qed.
